@@ -103,6 +103,28 @@ macro_rules! entraited_traits {
         impl std::borrow::Borrow<dyn $TrBorrow> for App { fn borrow(&self) -> &(dyn $TrBorrow + 'static) { self } }
     };
 }
+// the receiver token of an entraited trait's methods passed in by the caller while the trait is written in the
+// macro body: the forwarded `self` of the `Impl<T>` method has to refer to that receiver (defect repaired by
+// 69a9e85: E0424 before)
+macro_rules! caller_receiver_traits {
+    ($slf:tt, $TrSelf:ident, $TrRef:ident, $TrInv:ident, $TrInvImpl:ident, $Sel:ident, $H:ident, $f:ident, $g:ident, $h:ident) => {
+        #[entrait]
+        pub trait $TrSelf { fn $f(&$slf, k: i64, x: i64) -> i64; }
+        #[entrait(delegate_by = ref)]
+        pub trait $TrRef { fn $g(&$slf, k: i64, x: i64) -> i64; }
+        #[entrait($TrInvImpl, delegate_by = $Sel)]
+        pub trait $TrInv { fn $h(&$slf, k: i64, x: i64) -> i64; }
+        impl $TrSelf for App { fn $f(&self, k: i64, x: i64) -> i64 { rec(stringify!($f), &[k, x]); k * 10 + x } }
+        impl $TrRef for App { fn $g(&self, k: i64, x: i64) -> i64 { rec(stringify!($g), &[k, x]); k * 10 + x } }
+        impl AsRef<dyn $TrRef> for App { fn as_ref(&self) -> &(dyn $TrRef + 'static) { self } }
+        pub struct $H;
+        #[entrait]
+        impl $TrInvImpl for $H {
+            fn $h(_d: &impl std::any::Any, k: i64, x: i64) -> i64 { rec(stringify!($h), &[k, x]); k * 10 + x }
+        }
+        impl $Sel<App> for App { type Target = $H; }
+    };
+}
 
 two_params!(A1, a1, _d, k);            // collision
 two_params!(A2, a2, _d, other_name);   // control
@@ -116,6 +138,7 @@ body_dep!(H1, h1, k);
 body_dep_mod!(H2, h2m, h2, k);
 body_dep_by_value!(H3, h3, k);
 concrete_dep!(H4, h4, k);
+caller_receiver_traits!(self, I1, I2, I3, I3Impl, SelI3, HolderI3, i1, i2, i3);
 
 fn check(name: &str, direct: impl FnOnce() -> i64, via: impl FnOnce() -> i64, bad: &mut u32) {
     let r1 = direct();
@@ -147,6 +170,9 @@ fn main() {
     check("h2", || h2m::h2(&app, 2, 3), || app.h2(2, 3), &mut bad);
     check("h3", || h3(Impl::new(App), 2, 3), || Impl::new(App).h3(2, 3), &mut bad);
     check("h4", || h4(&App, 2, 3), || app.h4(2, 3), &mut bad);
-    println!("C01-PROBE cases=16 failed={bad}");
+    check("i1", || App.i1(2, 3), || app.i1(2, 3), &mut bad);
+    check("i2", || App.i2(2, 3), || app.i2(2, 3), &mut bad);
+    check("i3", || HolderI3::i3(&app, 2, 3), || app.i3(2, 3), &mut bad);
+    println!("C01-PROBE cases=19 failed={bad}");
     std::process::exit(if bad == 0 { 0 } else { 1 });
 }
